@@ -187,8 +187,8 @@ def run(ctx):
                 "fields is one walker of one population pushed through k real propagate_free calls; state = (configuration, dt, step, "
                 "history); plus the free-projection sampler over every virtual-RNG stream (3 letters on 4 positions)")
     ctx.assume("quadrature/round-off floor 2e-9; the second-order ratio is required in the small-dt tail and only for n_exp_terms >= 6")
-    ctx.pmap(job, configs(ctx.tier, ctx.seed))
-    ctx.pmap(job_sampler, [dict(seed=ctx.seed, tier=ctx.tier, kind="sampler")])
+    ctx.pmap(job, configs(ctx.tier, ctx.seed), tasks_per_child=2)
+    ctx.pmap(job_sampler, [dict(seed=ctx.seed, tier=ctx.tier, kind="sampler")], tasks_per_child=2)
     ctx.require_guard("ladder_ratios_live", "taylor_remainder_checked", "fp_blocks_recomputed")
 
 
